@@ -209,3 +209,30 @@ Definition rrun (h : list rop) : rstate := fold_left rstep h rinit.
 (* what serving route r produces (each layer and the handler emit one event) *)
 Definition route_trace (s : rstate) (r : nat) : option handler :=
   match nth_error (routes s) r with Some st => Some (apply_middlewares [Final] st) | None => None end.
+
+(* ---- one request where ANY layer may end in an uncaught throw (handler.go newMiddleware /
+   class middlewares: the panic unwinds through every outer layer, skipping its after-$next calls,
+   and withErrorHandler runs the onError closure on the same bufferedWriter).  A layer: the calls
+   before $next, whether it throws there, the calls after $next, whether it throws there. *)
+Record layer := { l_pre : list op; l_tpre : bool; l_post : list op; l_tpost : bool }.
+(* ls outermost first; result: the calls that ran, and whether a throw is propagating outwards *)
+Fixpoint layers_ops (ls : list layer) (h : list op) (hthrow : bool) : list op * bool :=
+  match ls with
+  | [] => (h, hthrow)
+  | l :: rest =>
+      if l_tpre l then (l_pre l, true)
+      else let (inner, thrown) := layers_ops rest h hthrow in
+           if thrown then ((l_pre l ++ inner)%list, true)
+           else ((l_pre l ++ inner ++ l_post l)%list, l_tpost l)
+  end.
+Definition no_layer : layer := {| l_pre := []; l_tpre := false; l_post := []; l_tpost := false |}.
+Definition sorted_layers (mws : list (Z * layer)) : list layer :=
+  let es := ssort (map (fun im => {| prio := fst (snd im); ident := fst im |}) (number 0 mws)) in
+  map (fun e => snd (nth (ident e) mws (0, no_layer))) es.
+Definition server_ops_t (mws : list (Z * layer)) (h : list op) (hthrow : bool) (onerr : list op) : list op :=
+  let (ops, thrown) := layers_ops (sorted_layers mws) h hthrow in
+  if thrown then (ops ++ onerr)%list else ops.
+Definition serve_t mws h hthrow onerr : bw := run (server_ops_t mws h hthrow onerr).
+(* a middleware that never throws, as a layer *)
+Definition quiet (m : Z * (list op * list op)) : Z * layer :=
+  (fst m, {| l_pre := fst (snd m); l_tpre := false; l_post := snd (snd m); l_tpost := false |}).
